@@ -3,6 +3,8 @@ package props
 import (
 	"context"
 	"fmt"
+	"google.golang.org/grpc/codes"
+	"google.golang.org/grpc/status"
 	"strings"
 	"sync"
 	"testing"
@@ -29,7 +31,7 @@ func genC06(t *rapid.T) C06Case {
 		c = genC02(t)
 		c.ArmEnd = false
 	case "c03":
-		c = genC03(t)
+		c = genC03Base(t)
 	default:
 		c = genC04(t)
 	}
@@ -386,3 +388,130 @@ func execC06Open(t *testing.T, c C06Open) (v Verdict) {
 }
 
 func TestC06Open(t *testing.T) { checkProp(t, "C06", "ended-at-open", genC06Open, execC06Open) }
+
+// ---- streams whose own deadline expires while the handler is still busy ----------------------
+//
+// The caller (a scripted peer) neither resets nor stops sending; the handler notices its deadline late. Whatever the
+// server then puts on the wire for that id must still be a protocol history: no reset for a stream that is still open,
+// nothing after the trailer.
+
+type C06Deadline struct {
+	Before int  `json:"before"` // bodies sent before the deadline passes
+	After  int  `json:"after"`  // bodies sent after it has passed, while the handler is still running
+	Reads  int  `json:"reads"`  // messages the handler reads before it starts lingering
+	Sends  int  `json:"sends"`  // messages the handler sends when it finally continues
+	RetErr bool `json:"ret_err"`
+	Close  bool `json:"close"` // the peer half-closes after its last body
+	Ser    bool `json:"ser"`
+	Stats  bool `json:"stats,omitempty"`
+}
+
+func genC06Deadline(t *rapid.T) C06Deadline {
+	c := C06Deadline{Before: rapid.IntRange(0, 3).Draw(t, "before"), After: rapid.IntRange(1, 4).Draw(t, "after"), Sends: rapid.IntRange(0, 2).Draw(t, "sends"), RetErr: rapid.Bool().Draw(t, "ret_err"),
+		Close: rapid.Bool().Draw(t, "close"), Ser: rapid.Bool().Draw(t, "ser"), Stats: rapid.IntRange(0, 3).Draw(t, "stats") == 0}
+	c.Reads = rapid.IntRange(0, c.Before).Draw(t, "reads")
+	return c
+}
+
+func execC06Deadline(t *testing.T, c C06Deadline) (v Verdict) {
+	var tap []kit.Ev
+	returned := false
+	var mu sync.Mutex
+	res := kit.Bubble(t, func() {
+		bg := context.Background()
+		sched := kit.NewSched()
+		svc := kit.NewSvc()
+		svc.Stream("d", true, true, func(s grpcServerStream) error {
+			defer func() {
+				mu.Lock()
+				returned = true
+				mu.Unlock()
+			}()
+			for i := 0; i < c.Reads; i++ {
+				if _, err := kit.RecvBytes(s); err != nil {
+					break
+				}
+			}
+			sched.Park(nil, "linger") // busy with something that does not watch the context
+			for i := 0; i < c.Sends; i++ {
+				_ = kit.SendBytes(s, []byte{byte(i)})
+			}
+			if c.RetErr {
+				return status.Error(codes.Aborted, "late")
+			}
+			return nil
+		})
+		w := kit.NewWorld(kit.Topo{Kind: "direct", Serialize: c.Ser, Clients: 1, Raw: true, Stats: c.Stats}, svc, nil, nil)
+		raw := w.Links[0].A
+		method := kit.FullMethod("d")
+		send := func(e kit.EnvSpec) {
+			e.Wrap = true
+			_ = raw.Write(bg, e.Build(5, method, "c0", kit.ServerName))
+			kit.Settle()
+		}
+		body := &kit.Payload{Class: "lit", Lit: []byte("b")}
+		send(kit.EnvSpec{HdrMD: []kit.RawKV{{K: "grpc-timeout", V: "30m"}}})
+		for i := 0; i < c.Before; i++ {
+			send(kit.EnvSpec{Body: body})
+		}
+		time.Sleep(50 * time.Millisecond) // the stream's deadline passes; its handler is still lingering
+		kit.Settle()
+		for i := 0; i < c.After; i++ {
+			send(kit.EnvSpec{Body: body})
+		}
+		if c.Close {
+			send(kit.EnvSpec{Status: &kit.StatusSpec{Code: 0}, Trailer: true})
+		}
+		sched.ReleaseGate("linger")
+		kit.Settle()
+		tap = w.Tap.Snapshot()
+		sched.Drain()
+		w.Shutdown()
+		kit.Settle()
+	})
+	if res.Panic != nil {
+		v.failf("panic: %v\n%s", res.Panic, res.Stack)
+	}
+	mu.Lock()
+	hr := returned
+	mu.Unlock()
+	if !hr {
+		v.failf("the handler did not return after it was released")
+	}
+	// client -> server envelopes are the scripted peer's; only the server's side of the history is judged
+	var s2c []kit.Ev
+	for _, e := range kit.Filter(tap, "c0", kit.BtoA) {
+		if e.Rpc.GetId() == 5 {
+			s2c = append(s2c, e)
+		}
+	}
+	trailers := 0
+	for i, e := range s2c {
+		switch {
+		case e.Rpc.GetReset_() != nil && trailers == 0:
+			v.failf("WIRE s->c #%d: the server reset stream 5 although its handler was still running and the caller had not reset it (history: %s)", i, shapes(s2c))
+		case trailers > 0 && e.Rpc.GetReset_() == nil:
+			v.failf("WIRE s->c #%d: %q after the stream's trailer (history: %s)", i, kit.Shape(e.Rpc), shapes(s2c))
+		}
+		if e.Rpc.GetTrailer() != nil && e.Rpc.GetReset_() == nil {
+			trailers++
+		}
+	}
+	if hr && trailers != 1 {
+		v.failf("WIRE the handler returned on a live connection whose caller had not reset the stream: %d trailers (history: %s)", trailers, shapes(s2c))
+	}
+	v.Info = kit.CaseInfo{Labels: []string{"family=server-deadline", fmt.Sprintf("deadline.bodies_after=%d", c.After)}, NonTrivial: true, Key: fmt.Sprintf("%+v", c), Sample: map[string]any{"case": c, "server_history": shapes(s2c)}}
+	return
+}
+
+func shapes(evs []kit.Ev) string {
+	var out []string
+	for _, e := range evs {
+		out = append(out, kit.Shape(e.Rpc))
+	}
+	return strings.Join(out, " ")
+}
+
+func TestC06Deadline(t *testing.T) {
+	checkProp(t, "C06", "server-deadline", genC06Deadline, execC06Deadline)
+}
